@@ -311,9 +311,17 @@ var (
 )
 
 // genAuthority draws the target authority and a label for it.
-func genAuthority(r *core.Rand, names []string, connect bool) (string, string) {
+func genAuthority(r *core.Rand, names []string, connect bool, hf *hostsFile) (string, string) {
 	var host, label string
-	switch r.Intn(20) {
+	pick := r.Intn(20)
+	if hf != nil && r.Chance(70) {
+		pick = 100
+	}
+	switch pick {
+	case 100:
+		// a name of the generated hosts file (of a loopback record or of another one), a built-in name or an IP
+		// literal, as spelt and in other letter cases
+		host, label = hf.genHost(r)
 	case 0, 1, 2, 3, 4:
 		host, label = core.Pick(r, routedHosts), "host-routed"
 	case 5, 6, 7:
@@ -361,9 +369,9 @@ func genAuthority(r *core.Rand, names []string, connect bool) (string, string) {
 	return host, label
 }
 
-func genItem(r *core.Rand, names []string, inner bool, last bool) item {
+func genItem(r *core.Rand, names []string, inner bool, last bool, hf *hostsFile) item {
 	connect := !inner && r.Chance(28)
-	authority, hl := genAuthority(r, names, connect)
+	authority, hl := genAuthority(r, names, connect, hf)
 	pas, al := genAuth(r)
 	label := hl + "," + al
 	var extra []rig.Field
@@ -457,10 +465,15 @@ func rightAuthField() rig.Field {
 	return rig.Field{Name: "Proxy-Authorization", Value: "Basic " + b64(authUser+":"+authPass)}
 }
 
-func genConn(r *core.Rand, names []string) *connCase {
+func genConn(r *core.Rand, names []string) *connCase { return genConnWith(r, names, nil) }
+
+func genConnWith(r *core.Rand, names []string, hf *hostsFile) *connCase {
 	cc := &connCase{Kind: "conn", Mask: r.Intn(16), TimeOpen: r.Chance(75), Mode: core.Pick(r, []string{"direct", "direct", "upstream", "mitm"})}
 	if cc.Mask&ctlTime != 0 && r.Chance(30) {
 		cc.Frames = core.Pick(r, frameKinds)
+	}
+	if hf != nil {
+		cc.Mode = hf.mode
 	}
 	n := r.Range(1, 4)
 	if cc.Mode == "mitm" {
@@ -468,7 +481,7 @@ func genConn(r *core.Rand, names []string) *connCase {
 		// then requests inside the intercepted session
 		pre := r.Intn(2)
 		for i := 0; i < pre; i++ {
-			cc.Items = append(cc.Items, genItem(r, names, false, false))
+			cc.Items = append(cc.Items, genItem(r, names, false, false, hf))
 		}
 		fs := []rig.Field{{Name: "Host", Value: "origin.test:443"}, {Name: "Case-Id", Value: fmt.Sprintf("c04-%d-open", idSeq.Add(1))}}
 		label := "host-routed,connect,mitm-open"
@@ -480,12 +493,12 @@ func genConn(r *core.Rand, names []string) *connCase {
 		}
 		cc.Items = append(cc.Items, item{Connect: &reqmodel.ConnectReq{Authority: "origin.test:443", Minor: 1, Fields: fs}, Label: label})
 		for i := 0; i < n; i++ {
-			cc.Items = append(cc.Items, genItem(r, names, true, i == n-1))
+			cc.Items = append(cc.Items, genItem(r, names, true, i == n-1, hf))
 		}
 		return cc
 	}
 	for i := 0; i < n; i++ {
-		cc.Items = append(cc.Items, genItem(r, names, false, i == n-1))
+		cc.Items = append(cc.Items, genItem(r, names, false, i == n-1, hf))
 	}
 	return cc
 }
